@@ -19,11 +19,18 @@ Theorem number_parse_exact : forall dbl lx,
   Qabs (pyq (to_value dbl lx) - lex_Q lx) <= Qabs (lex_Q lx) * eps53 + tiny.
 Proof.
   intros dbl lx (H1 & H2 & H3 & H4) Hw Hr.
-  split; [exact (parse_render dbl lx Hw)|].
-  destruct (to_value_spec dbl H2 lx Hw Hr) as (_ & A & B & _).
+  destruct (to_value_spec dbl H2 lx Hw Hr) as (Hi & A & B & _).
+  split; [exact (parse_render dbl lx Hw Hi)|].
   split; [exact A|]. split; [exact B|]. exact (stored_err dbl H1 H2 lx Hw Hr).
 Qed.
 Print Assumptions number_parse_exact.
+
+(* the magnitude guard of the theorems is what the code enforces: a fraction that reaches the binary64 overflow
+   threshold 2^1024 - 2^970 (float() gives inf) is rejected as not well-formed (value.py, fix 5180c6a) *)
+Theorem number_overflow_rejected : forall dbl lx,
+  wf lx -> lfrac lx <> None -> ovf_threshold <= Qabs (lex_Q lx) -> parse_num dbl (render lx) = None.
+Proof. exact parse_overflow. Qed.
+Print Assumptions number_overflow_rejected.
 
 (* parse -> cssText -> parse, for every lexeme and both omitLeadingZero settings: the value comes back within half a
    unit of the 6th decimal (plus the two binary64 roundings), the unit is the same or a zero length dropped it *)
